@@ -304,6 +304,11 @@ struct Cx<'p> {
     used_files: std::collections::BTreeSet<String>,
     /// every named field that can be a flattened field becomes one
     force_flatten: bool,
+    /// names (case-folded) of all variants generated so far: a flattened externally tagged enum
+    /// writes its variant name as a key next to the fields of the struct it is flattened into
+    variant_keys_seen: std::collections::BTreeSet<String>,
+    /// .. and the names of all named fields generated so far
+    field_keys_seen: std::collections::BTreeSet<String>,
 }
 
 fn has_default(ty: &TyExpr) -> bool {
@@ -866,8 +871,13 @@ impl Cx<'_> {
     fn gen_field(&mut self, t: &mut Tape, params: &[Param], named: bool, local: &mut Names, allow_flatten: bool) -> Field {
         let ident = if named {
             let unusual = self.p.unusual_idents;
-            let name = self.names.fresh(t, &[CONVENTIONAL_FIELDS, UNUSUAL_FIELDS], &[100 - unusual, unusual], "fld");
+            let mut name = self.names.fresh(t, &[CONVENTIONAL_FIELDS, UNUSUAL_FIELDS], &[100 - unusual, unusual], "fld");
+            // (never the name of a variant: `a` next to a flattened `enum E { a(..) }` is a duplicate key)
+            while self.variant_keys_seen.contains(&Names::key(&name)) {
+                name = self.names.fresh(t, &[CONVENTIONAL_FIELDS, UNUSUAL_FIELDS], &[100 - unusual, unusual], "fld");
+            }
             local.claim(&name);
+            self.field_keys_seen.insert(Names::key(&name));
             Some(name)
         } else {
             None
@@ -1093,7 +1103,12 @@ impl Cx<'_> {
             let mut vnames = Names::new();
             for vi in 0..nv {
                 let unusual = self.p.unusual_idents;
-                let vident = vnames.fresh(t, &[CONVENTIONAL_VARIANTS, UNUSUAL_VARIANTS], &[100 - unusual, unusual], "Var");
+                let mut vident = vnames.fresh(t, &[CONVENTIONAL_VARIANTS, UNUSUAL_VARIANTS], &[100 - unusual, unusual], "Var");
+                // (never the name of a field generated earlier, see `variant_keys_seen`)
+                while self.field_keys_seen.contains(&Names::key(&vident)) {
+                    vident = vnames.fresh(t, &[CONVENTIONAL_VARIANTS, UNUSUAL_VARIANTS], &[100 - unusual, unusual], "Var");
+                }
+                self.variant_keys_seen.insert(Names::key(&vident));
                 let shape = if force_unit { t.word(); 0 } else { t.weighted(&[30, 25, 30, if repr == Repr::Internal { 0 } else { 15 }]) };
                 let mut flocal = Names::new();
                 let mut body = match shape {
@@ -1671,7 +1686,7 @@ fn name_games(cx: &mut Cx, t: &mut Tape) {
 
 pub fn gen_module(words: &[u32], profile: &Profile, name: &str) -> Module {
     let mut t = Tape::new(words);
-    let mut cx = Cx { p: profile, names: Names::new(), types: vec![], flattened_here: Default::default(), doc_counter: 0, used_files: Default::default(), force_flatten: false };
+    let mut cx = Cx { p: profile, names: Names::new(), types: vec![], flattened_here: Default::default(), doc_counter: 0, used_files: Default::default(), force_flatten: false, variant_keys_seen: Default::default(), field_keys_seen: Default::default() };
     let n = 1 + t.choose(profile.max_types);
     for _ in 0..n {
         let td = cx.gen_type(&mut t);
